@@ -41,6 +41,16 @@ def _consts(t):
 
 # ======================================================================
 # C15
+def rule_fr1(ctx: Ctx):
+    """line framing only (the CSV file reader is file.read -> decode -> line.unframe -> csv.load)"""
+    return rule_framing(ctx)[0]
+
+
+def _same_statement(a, b):
+    return a is b or (getattr(a, "lineno", -1) == getattr(b, "lineno", -2) and getattr(a, "col_offset", -1) == getattr(b, "col_offset", -2)
+                      and isinstance(a, ast.stmt) and isinstance(b, ast.stmt))
+
+
 def rule_framing(ctx: Ctx):
     r = RuleResult("FR-1", "line framing: same delimiter written and split; carry-over kept and prepended; non-empty remainder flushed at completion")
     r2 = RuleResult("FR-2", "length-prefix framing: same prefix width / byte order defaults on both sides; payload after prefix; carry-over discipline")
@@ -101,6 +111,10 @@ def rule_framing(ctx: Ctx):
                 return True
             return any(x == e.result for e in pops for x in subterms(v))
         ok = len(nl) == 1 and is_last_piece(nl[0].value) and (not pre or p.trace.index(nl[0]) > p.trace.index(pre[0]))
+        if ok and pre and not pops:
+            # ... and it must be READ after the prepend: in `lines[0], acc = acc + lines[0], lines[-1]` the right-hand side is evaluated
+            # first, so for a chunk without delimiter (one piece) the carry-over is the piece without the previous carry-over
+            ok = not _same_statement(nl[0].node, pre[0].node)
         r.ob(ok, lambda: mk_finding("FR-1", spec, None, {}, p, "the last (unterminated) piece must become the new carry-over; assignments: %s" % [e.brief() for e in nl], extra="carry"))
         # complete lines: all pieces but the last, each emitted once, in order
         loops = [e for e in p.trace if e.k == "loopiter"]
@@ -307,15 +321,19 @@ def rule_framing(ctx: Ctx):
             # payload test:  len - (k+1)*prefix_size - sum(k+1 sizes) >= 0
             cp = (-co[ps[0]] * s_) if ps else 0
             shape = co[ln] * s_ == 1 and all(co[k] * s_ == -1 for k in sz) and c == 0
-            if cp == len(sz) + 1:
+            # the frame the test is about: as many sizes were parsed before it as frames were started
+            parsed = [x.result for x in p.trace[:pos] if x.k == "call" and x.d.get("method") == "from_bytes"]
+            k_emitted = len([x for x in p.trace[:pos] if x.k == "emit" and x.method == "on_next"])
+            if len(parsed) == k_emitted:
+                # prefix test of frame k = number of frames delivered so far: len - (k+1)*prefix - (sizes of the k delivered frames) >= 0
                 what = "prefix"
                 seen_avail = True
-            elif cp == len(sz) and sz:
+                shape = shape and cp == k_emitted + 1 and set(sz) == set(parsed)
+            else:
+                # payload test of frame k (its size was just parsed): len - (k+1)*prefix - (sizes of frames 0..k) >= 0
                 what = "payload"
                 seen_payload = True
-            else:
-                what = "payload" if sz else "prefix"
-                shape = False
+                shape = shape and cp == len(parsed) and set(sz) == set(parsed)
             want = "GtE" if enough else "Lt"
             rc.groups.add((what, enough, len(rc.groups)))
             rc.ob(op2 == want and shape, lambda e=e, what=what, op2=op2, enough=enough: mk_finding(
